@@ -31,14 +31,14 @@ inductive WOp
   | waitAbove (thr : Int)
   | popOrWait
   | shutdown
-  deriving DecidableEq, Repr
+  deriving DecidableEq, Repr, Hashable
 
 structure Mon where
   m : Bool
   value : Int
   genI : Nat
   genD : Nat
-  deriving DecidableEq, Repr
+  deriving DecidableEq, Repr, Hashable
 
 def Mon.init (v : Int) : Mon := ⟨false, v, 0, 0⟩
 
@@ -51,7 +51,7 @@ inductive WPc
   | parkD (op : WOp) (g : Nat)
   | bcI
   | bcD
-  deriving DecidableEq, Repr
+  deriving DecidableEq, Repr, Hashable
 
 structure WTh where
   pc : WPc
@@ -61,7 +61,7 @@ structure WTh where
   /-- answers the `waitCondition` callback of `PopOrWait` gave so far, newest first (ghost: the driver compares
   it with the answers the harness's callback really gave) -/
   cb : List Bool
-  deriving DecidableEq, Repr
+  deriving DecidableEq, Repr, Hashable
 
 def WTh.new (script : List WOp) : WTh := ⟨.idle, script, [], []⟩
 
